@@ -18,7 +18,7 @@ class World:
         s.ex.gobj['@__libc_single_threaded'] = lst.base
         s.lst = lst
         s.ex.install_globals(s.st)
-        s.vars = {}; s._layouts = {}; s._glay = None
+        s.vars = {}; s._layouts = {}; s._glay = None; s._gobjs = {}; s._grids = []; s._sealed = False
         S = mod.types[SUPPORT_T]; s.sup_offs, s.sup_size, _ = S.layout(mod)
         G = mod.types[GRID_T]; s.grid_size = G.size(mod)
 
@@ -51,7 +51,9 @@ class World:
         ex.poke(st, vec, 0, dbase); ex.poke(st, vec, 8, dbase + 8 * nv); ex.poke(st, vec, 16, dbase + 8 * nv)
         uc = s.var(name + '_usecount', 32); s.assume(z3.And(z3.UGE(uc, 2), z3.ULE(uc, 1 << 20)))
         ex.poke(st, ctrl, 8, uc, 4); ex.poke(st, ctrl, 12, bv(1, 32), 4)
-        return dict(name=name, vec=vec, data=data, ctrl=ctrl, n=nv, pts=pts, uc=uc, dbase=dbase)
+        g = dict(name=name, vec=vec, data=data, ctrl=ctrl, n=nv, pts=pts, uc=uc, dbase=dbase)
+        s._grids.append(g)
+        return g
 
     def grid_layout(s):
         """Where the shared_ptr sits inside Grid<double> (normally offset 0 of a 16-byte object) and which bytes belong to
@@ -100,10 +102,53 @@ class World:
         for i, k in enumerate(knots): s.ex.poke(s.st, kn, 8 * i, k)
         return gen
 
+    def grid_obj_of(s, grid):
+        if grid['name'] not in s._gobjs: s._gobjs[grid['name']] = s.mk_grid_obj(grid['name'] + '_gridobject', grid)
+        return s._gobjs[grid['name']]
+
+    def run_constructor(s, fn, args, what):
+        """Runs a real constructor wrapper on the current state; under the assumed preconditions exactly one path returns
+        normally - that post-state becomes the pre-state of the check (its access log is cleared)."""
+        L = len(s.st.pc)
+        outs = s.ex.run(fn, args, s.st)
+        rets = [o for o in outs if o.kind == 'ret']
+        if not rets or len(rets) != len(outs):
+            raise EngineError('pre-state construction of %s through %s gave %d normal / %d other paths' % (what, fn, len(rets), len(outs) - len(rets)))
+        base = rets[0].st
+        if len(rets) > 1:
+            # the constructor's case distinctions (e.g. empty / non-empty window) end in the same memory: merge the paths again
+            conds = [z3.And(o.st.pc[L:]) if len(o.st.pc) > L else z3.BoolVal(True) for o in rets]
+            for o in rets[1:]:
+                if set(o.st.objs) != set(base.objs) or any(o.st.objs[k].live != base.objs[k].live or o.st.objs[k].size != base.objs[k].size for k in base.objs):
+                    raise EngineError('pre-state construction of %s through %s: %d normal paths with different object sets' % (what, fn, len(rets)))
+            for k in base.objs:
+                if any(not o.st.objs[k].arr.eq(base.objs[k].arr) for o in rets[1:]):
+                    # memory that differs between the paths becomes a byte-wise case distinction on the path conditions
+                    if base.objs[k].size > 4096: raise EngineError('pre-state construction: large object differs between constructor paths')
+                    arr = base.objs[k].arr
+                    for off in range(base.objs[k].size):
+                        vals = [z3.simplify(z3.Select(o.st.objs[k].arr, bv(off))) for o in rets]
+                        if all(v.eq(vals[0]) for v in vals[1:]): continue
+                        b = vals[-1]
+                        for c, v in reversed(list(zip(conds[:-1], vals[:-1]))): b = z3.If(c, v, b)
+                        arr = z3.Store(arr, bv(off), z3.simplify(b))
+                    base.objs[k].arr = arr
+            base.pc = base.pc[:L] + [z3.Or(conds)]
+        s.st = base; s.st.log = []
+
     def mk_support(s, name, grid, start=None, end=None, invariant=True):
+        """A Support with a symbolic window. If the module has the constructor wrapper, the object is produced by the REAL
+        constructor from (grid, start, end) - whatever the private representation is; otherwise the fields are laid out directly."""
         ex, st = s.ex, s.st
-        sup = st.alloc(s.sup_size, name, 'input')
         start = start if start is not None else s.var(name + '_start'); end = end if end is not None else s.var(name + '_end')
+        if invariant and '@w_ctor' in s.mod.funcs:
+            s.assume(valid_window(start, end, grid['n']))
+            go = s.grid_obj_of(grid)
+            sup = s.st.alloc(s.sup_size, name, 'input')
+            s.run_constructor('@w_ctor', [bv(sup.base), bv(go.base), start, end], name)
+            grid['owners'] = grid.get('owners', 0) + 1
+            return dict(obj=s.st.objs[sup.id], start=start, end=end, grid=grid, name=name)
+        sup = st.alloc(s.sup_size, name, 'input')
         s.lay_grid_at(sup, s.sup_offs[0], grid)
         ex.poke(st, sup, s.sup_offs[1], start); ex.poke(st, sup, s.sup_offs[2], end)
         if invariant: s.assume(valid_window(start, end, grid['n']))
@@ -155,9 +200,22 @@ class World:
         """A Spline<double,order> object with one coefficient array per interval of the (symbolic) window; coefficient values
         are unconstrained bytes; members unknown to the harness start with the bytes of a freshly constructed object."""
         ex, st = s.ex, s.st
-        lay = s.spline_layout(order)
         csz = 8 * (order + 1)
         start = start if start is not None else s.var(name + '_start'); end = end if end is not None else s.var(name + '_end')
+        if '@w_mk_spline%d' % order in s.mod.funcs and '@w_ctor' in s.mod.funcs:
+            # through the real constructors: Support(grid, start, end), then Spline(support, std::move(vector))
+            sup = s.mk_support(name + '_window', grid, start, end)
+            lay = s.spline_layout(order)
+            nint = z3.If(z3.UGE(end - start, 2), end - start - 1, bv(0))
+            coef = s.st.alloc(csz * max(1, s.nmax - 1), name + '_coefficients', kind); coef.lsize = csz * nint
+            vec = s.st.alloc(24, name + '_vector_argument', 'scratch')
+            ex.poke(s.st, vec, 0, bv(coef.base)); ex.poke(s.st, vec, 8, bv(coef.base) + csz * nint); ex.poke(s.st, vec, 16, bv(coef.base) + csz * nint)
+            sp = s.st.alloc(lay['size'], name, kind)
+            s.run_constructor('@w_mk_spline%d' % order, [bv(sp.base), bv(sup['obj'].base), bv(vec.base)], name)
+            s.st.objs[sup['obj'].id].kind = 'scratch'
+            grid['owners'] = grid.get('owners', 0) + 1
+            return dict(obj=s.st.objs[sp.id], coef=s.st.objs[coef.id], start=start, end=end, grid=grid, order=order, name=name, nint=nint, layout=lay)
+        lay = s.spline_layout(order)
         coef = st.alloc(csz * max(1, s.nmax - 1), name + '_coefficients', kind); sp = st.alloc(lay['size'], name, kind)
         nint = z3.If(z3.UGE(end - start, 2), end - start - 1, bv(0)); coef.lsize = csz * nint
         so, vo = lay['sup'], lay['vec']
@@ -168,13 +226,32 @@ class World:
         s.assume(valid_window(start, end, grid['n']))
         return dict(obj=sp, coef=coef, start=start, end=end, grid=grid, order=order, name=name, nint=nint, layout=lay)
 
+    def seal(s):
+        """Called before the operation under test runs: the reference-count baseline of every grid becomes its value in the
+        constructed pre-state (the symbolic initial count plus one per object the constructors made)."""
+        if s._sealed: return
+        s._sealed = True
+        for o in list(s.st.objs.values()):
+            pass
+        for g in s._grids:
+            g['uc0'] = g['uc']; g['uc'] = z3.simplify(s.ex.peek(s.st, s.st.objs[g['ctrl'].id], 8, 4))
+
     def out(s, name, nbytes=8):
         return s.st.alloc(nbytes, name, 'out')
 
     def read_support(s, st, obj_id):
+        """(start, end) of a Support object in state st, observed through the REAL getters (getStartIndex/getEndIndex run in
+        the executor on a copy of the state) - independent of the private representation."""
         o = st.objs[obj_id]
-        sp = s.sup_offs[0] + s.grid_layout()['sp']
-        return (s.ex.peek(st, o, sp), s.ex.peek(st, o, sp + 8), s.ex.peek(st, o, s.sup_offs[1]), s.ex.peek(st, o, s.sup_offs[2]))
+        vals = []
+        for fn in ('@w_start', '@w_endidx'):
+            outs = s.ex.run(fn, [bv(o.base)], st.clone())
+            if len(outs) != 1 or outs[0].kind != 'ret': raise EngineError('observer %s did not return on a single path' % fn)
+            vals.append(outs[0].val)
+        return vals[0], vals[1]
+
+    def set_kind(s, d, kind):
+        s.st.objs[d['obj'].id].kind = kind
 
 
 def valid_window(start, end, n):
